@@ -144,6 +144,13 @@ def handle (inp out : Sexp) : CaseResult :=
         tags := [s!"pos-{name}", s!"kind-{kind}", "crash"],
         detail := s!"the parser panicked: spelling={repr spelling} impl={out}" }
     else
+    match out with
+    | .list (.atom "mismatch" :: _) =>
+      -- Program::from_str and Instruction::from_str disagree on the same text
+      { agree := false, specOk := false, nontrivial := true,
+        tags := [s!"pos-{name}", s!"kind-{kind}", "entry-point-mismatch"],
+        detail := s!"entry points disagree: spelling={repr spelling} {out}" }
+    | _ =>
     match decodeOut out with
     | none => .bad s!"undecodable output {out}"
     | some o =>
